@@ -161,6 +161,27 @@ def evaluate(x, M, shift=None, volume=True, deep=True):
                 viols.append(('cumulative-displacements-stale-after-extend', f'shape {cum_e.shape} vs {cum.shape}'))
         except Exception as e:  # noqa: BLE001
             viols.append((f'extend-raise-{type(e).__name__}', str(e)))
+    if T >= 2 and (volume or deep) and not np.any(np.abs((steps - np.floor(steps)) - 0.5) < 1e-9):
+        # the same trajectory handed over as per-step displacements (the public displacement-mode constructor, which is
+        # also what drift correction returns): what it reports before anything converts it to positions
+        dref = np.concatenate([np.zeros_like(x[:1]), steps - np.round(steps)], axis=0)
+        try:
+            td = concretise.make_trajectory(dref.copy(), species, M, time_step=1e-15, coords_are_displacement=True, base_positions=np.mod(x[0], 1.0))
+            dd = np.array(td.displacements)
+            cd = np.array(td.cumulative_displacements)
+            dist_d = np.array(td.distances_from_base_position())
+            pd_ = np.array(td.positions)
+            dd2 = np.array(td.displacements)
+            if dd.shape != dref.shape or not np.allclose(dd, dref, atol=1e-12):
+                viols.append(('displacement-mode-trajectory-reports-other-displacements', f'given {dref.reshape(-1, 3).tolist()} reported {dd.reshape(-1, 3).tolist()}'))
+            elif not np.allclose(cd, np.cumsum(dref, axis=0), atol=1e-12) or not np.allclose(dist_d, own, rtol=1e-9, atol=1e-9):
+                viols.append(('displacement-mode-trajectory-cumulative-or-distance-wrong', ''))
+            if not circ_close(pd_, x) or not (np.all(pd_ >= 0) and np.all(pd_ < 1)):
+                viols.append(('displacement-mode-trajectory-positions-wrong', f'{pd_.reshape(-1, 3).tolist()} input {x.reshape(-1, 3).tolist()}'))
+            if not np.allclose(dd2, dref, atol=1e-12):
+                viols.append(('displacement-mode-trajectory-displacements-change-after-reading-positions', ''))
+        except Exception as e:  # noqa: BLE001
+            viols.append((f'displacement-mode-trajectory-raise-{type(e).__name__}', str(e)))
     if shift is not None:
         fr = steps - np.floor(steps)
         tie = np.any(np.abs(fr - 0.5) < 1e-9)
